@@ -38,6 +38,10 @@ def models(name):
                               H1=(Dagger(c) * d + Dagger(d) * c) + (Dagger(d) * e + Dagger(e) * d) + (c * d + Dagger(d) * Dagger(c)) + (d * e + Dagger(e) * Dagger(d))),
         "fermion_interaction": dict(modes=[c, d], H0=ec * Dagger(c) * c + ed * Dagger(d) * d + al * Dagger(c) * c * Dagger(d) * d, H1=Dagger(c) * d + Dagger(d) * c + c * d + Dagger(d) * Dagger(c)),
         "holstein": dict(modes=[a, c], H0=w * Na + ec * Dagger(c) * c, H1=Dagger(c) * c * (a + Dagger(a)) + (a + Dagger(a))),
+        "spin_fermion": dict(modes=[sm, c], H0=wq * pauli.SigmaZ("s") / 2 + ec * Dagger(c) * c, H1=sp * c + Dagger(c) * sm + (sm + sp) * (c + Dagger(c)) + (c + Dagger(c))),
+        "spin_two_fermions": dict(modes=[sm, c, d], H0=wq * pauli.SigmaZ("s") / 2 + ec * Dagger(c) * c + ed * Dagger(d) * d, H1=(sm + sp) * (Dagger(c) * d + Dagger(d) * c) + sp * c * d + Dagger(d) * Dagger(c) * sm),
+        "boson_ladder": dict(modes=[a, l], H0=w * Na + wb * NumberOperator(l), H1=Dagger(a) * l + Dagger(l) * a + (a + Dagger(a)) * (l + Dagger(l))),
+        "floquet_2x2": dict(modes=[l], H0=sympy.Matrix([[w * NumberOperator(l), 0], [0, w * NumberOperator(l) + D]]), H1=sympy.Matrix([[0, l + Dagger(l)], [l + Dagger(l), l + Dagger(l)]]), blocks=[0, 1]),
         "ladder_drive": dict(modes=[l, sm], H0=w * NumberOperator(l) + wq * pauli.SigmaZ("s") / 2, H1=(l + Dagger(l)) * (sm + sp)),
         # selective elimination: only the two-photon terms are eliminated, one-photon terms are kept
         "mask_two_photon": dict(modes=[a], H0=w * Na, H1=(a + Dagger(a)) + (a * a + Dagger(a) * Dagger(a)), fd=a**2 + Dagger(a) ** 2),
@@ -396,10 +400,12 @@ def configs(tier):
     cfgs = []
     quick = [("anharmonic3", 3), ("anharmonic4", 2), ("displaced", 3), ("kerr_drive", 2), ("two_bosons", 2), ("rabi", 3), ("jc_detuned", 2),
              ("fermion_hop2", 3), ("fermion_pair3", 2), ("fermion_interaction", 2), ("holstein", 2), ("ladder_drive", 2),
-             ("mask_two_photon", 2), ("mask_one_photon", 2), ("matrix_2x2", 2), ("matrix_1block", 2)]
+             ("mask_two_photon", 2), ("mask_one_photon", 2), ("matrix_2x2", 2), ("matrix_1block", 2),
+             ("spin_fermion", 3), ("spin_two_fermions", 2), ("boson_ladder", 2), ("floquet_2x2", 2)]
     thorough = [("anharmonic3", 4), ("anharmonic4", 3), ("displaced", 4), ("kerr_drive", 3), ("two_bosons", 3), ("rabi", 4), ("jc_detuned", 3),
                 ("fermion_hop2", 4), ("fermion_pair3", 3), ("fermion_interaction", 3), ("holstein", 3), ("ladder_drive", 3),
-                ("mask_two_photon", 3), ("mask_one_photon", 3), ("matrix_2x2", 3), ("matrix_1block", 3)]
+                ("mask_two_photon", 3), ("mask_one_photon", 3), ("matrix_2x2", 3), ("matrix_1block", 3),
+                ("spin_fermion", 4), ("spin_two_fermions", 3), ("boson_ladder", 3), ("floquet_2x2", 3)]
     for name, mo in quick if tier == "quick" else thorough:
         cfgs.append(dict(model=name, max_order=mo, _timeout_s=300 if tier == "quick" else 1500))
     return [("vf.props.secondq", "c07", c) for c in cfgs]
@@ -433,6 +439,16 @@ def c16_2nd_quant(cfg):
         "fermion_boson": dict(modes=[a, c], eigs=[[w * Na + ec * Nc], [w * Na + ec * Nc + D]],
                               Y={(0, 1): [[y[0] * Dagger(c) * a + y[1] * c + y[2] * Nc * Dagger(a) + y[3]]], (0, 0): [[y[4] * (Dagger(c) * a + Dagger(a) * c)]]}),
     }
+    from pymablock.number_ordered_form import LadderOp
+
+    l = LadderOp("l")
+    Nl = NumberOperator(l)
+    sets["ladder"] = dict(modes=[l], eigs=[[w * Nl, w * Nl + D]],
+                          Y={(0, 0): [[y[0] * (l + Dagger(l)), y[1] * l + y[2] * Dagger(l) + y[3]], [y[1] * Dagger(l) + y[2] * l + y[3], y[4] * (l**2 + Dagger(l) ** 2)]]})
+    sets["boson_ladder"] = dict(modes=[a, l], eigs=[[w * Na + wb * Nl + al * Na * Nl]],
+                                Y={(0, 0): [[y[0] * (Dagger(a) * l + Dagger(l) * a) + y[1] * (a * l + Dagger(l) * Dagger(a)) + y[2] * (l + Dagger(l)) * Na + y[2] * Na * (l + Dagger(l))]]})
+    sets["spin_fermion"] = dict(modes=[sm, c], eigs=[[wq * pauli.SigmaZ("s") / 2 + ec * Nc]],
+                                Y={(0, 0): [[y[0] * (sp * c + Dagger(c) * sm) + y[1] * (sm * c + Dagger(c) * sp) + y[2] * (c + Dagger(c))]]})
     m = sets[cfg["set"]]
     modes = m["modes"]
     solve = solve_sylvester_2nd_quant(tuple(m["eigs"]))
